@@ -227,20 +227,30 @@ func (l *lexer) peek() string {
 // emit will create a token with a value starting from the last emission
 // until the current cursor position.
 func (l *lexer) emit(t tokenType) {
-	verifLexStep()
 	val := ""
 	if l.pos <= len(l.input) {
 		val = l.input[l.start:l.pos]
 	}
+	l.emitValue(t, val)
+}
+
+// emitValue emits a token of the given type and value for the pending input,
+// which the value need not repeat literally.
+func (l *lexer) emitValue(t tokenType, val string) {
+	verifLexStep()
+	raw := ""
+	if l.pos <= len(l.input) {
+		raw = l.input[l.start:l.pos]
+	}
 
 	tok := token{val, t, Pos{l.line, l.offset}}
 
-	if c := strings.Count(val, "\n"); c > 0 {
+	if c := strings.Count(raw, "\n"); c > 0 {
 		l.line += c
-		lpos := strings.LastIndex(val, "\n")
-		l.offset = len(val[lpos+1:])
+		lpos := strings.LastIndex(raw, "\n")
+		l.offset = len(raw[lpos+1:])
 	} else {
-		l.offset += len(val)
+		l.offset += len(raw)
 	}
 
 	l.send(tok)
@@ -349,7 +359,10 @@ func lexExpression(l *lexer) stateFn {
 // This is implemented this way because Twig supports many alphabetical operators like "in",
 // which require more than just a check of the next character.
 func (l *lexer) tryLexOperator() bool {
-	op := operatorMatcher.FindString(l.input[l.pos:])
+	match := operatorMatcher.FindString(l.input[l.pos:])
+	// However its words are separated in the source, the operator is known
+	// by its words separated by one blank.
+	op := strings.Join(strings.Fields(match), " ")
 	if op == "" {
 		return false
 	} else if op == "%" {
@@ -362,7 +375,7 @@ func (l *lexer) tryLexOperator() bool {
 		// If the operator ends in a letter (such as "in", "is" or "b-and"),
 		// we avoid matching "include" or functions like "is_currently_on".
 		// For such operators to be valid, a name must not continue after them.
-		if next, _ := utf8.DecodeRuneInString(l.input[l.pos+len(op):]); len(l.input) > l.pos+len(op) && isName(string(next)) {
+		if next, _ := utf8.DecodeRuneInString(l.input[l.pos+len(match):]); len(l.input) > l.pos+len(match) && isName(string(next)) {
 			// "is notable" is not "is not" followed by "able": the first
 			// word may still be an operator on its own.
 			p := strings.Index(op, " ")
@@ -370,6 +383,7 @@ func (l *lexer) tryLexOperator() bool {
 				return false
 			}
 			op = op[:p]
+			match = op
 		}
 	} else if op == delimTrimWhitespace {
 		rest := l.input[l.pos+1:]
@@ -377,8 +391,8 @@ func (l *lexer) tryLexOperator() bool {
 			return false
 		}
 	}
-	l.pos += len(op)
-	l.emit(tokenOperator)
+	l.pos += len(match)
+	l.emitValue(tokenOperator, op)
 
 	return true
 }
